@@ -112,6 +112,18 @@ def runDivideOrig (r : Req) (avail : Nat) (done : Bool) : String :=
   else if all.isEmpty then encOutcome (.ok [])
   else encOutcome (untilAnswer (fun fuel => divideOrig fuel all avail true) (fuelFor all avail))
 
+/-- the pre-fix algorithm with ONE bounded run (no fuel doubling), for any weights:
+    `err:Hang` when `8 * fuelFor` is not enough, `err:ValueError` when no weight is positive.
+    Used to replay the defect F4 against a tree that does not have the fix. -/
+def runDivideOrigBounded (r : Req) (avail : Nat) (done : Bool) : String :=
+  let all := allChildren r.al r.filler r.pad r.children
+  let fuel := 8 * fuelFor all avail
+  if r.horizontal then
+    if r.children.isEmpty then encOutcome (.ok [])
+    else encOutcome (divideOrig fuel all avail (!done))
+  else if all.isEmpty then encOutcome (.ok [])
+  else encOutcome (divideOrig fuel all avail true)
+
 def runLayout (r : Req) (x y w h : Nat) (done : Bool) : String :=
   if !r.horizontal && r.children.isEmpty then "nothing"
   else
@@ -168,6 +180,11 @@ def handle : List String → String
   | "odiv" :: dir :: al :: done :: avail :: rest =>
     match decBool done, decNat avail, decReq dir al rest with
     | some done, some avail, some (some r, []) => runDivideOrig r avail done
+    | some _, some _, some (none, []) => "err:ValueError"
+    | _, _, _ => "bad-op"
+  | "odivz" :: dir :: al :: done :: avail :: rest =>
+    match decBool done, decNat avail, decReq dir al rest with
+    | some done, some avail, some (some r, []) => runDivideOrigBounded r avail done
     | some _, some _, some (none, []) => "err:ValueError"
     | _, _, _ => "bad-op"
   | "lay" :: dir :: al :: done :: x :: y :: w :: h :: rest =>
